@@ -223,6 +223,14 @@ def main(argv=None) -> int:
         print(f"INFRA-ERROR: cannot load harness module for {prop}\n{traceback.format_exc()}")
         return 2
     theorems = list(dict.fromkeys(getattr(mod, "THEOREMS", [])))
+    # theorems registered / de-registered outside the property module (harness/extra_theorems.json: added by Lean-only
+    # work; removed = kept in the Lean text but no longer counted as an obligation, e.g. definitional facts)
+    try:
+        extra = json.loads((core.VERIF / "harness" / "extra_theorems.json").read_text()).get(prop, {})
+        theorems = [t for t in theorems if t not in set(extra.get("remove", []))]
+        theorems += [t for t in extra.get("add", []) if t not in theorems]
+    except FileNotFoundError:
+        pass
     core.use_scratch_tmpdir()  # every mkdtemp of the harness lands in one per-process directory, removed at exit
     run = Runner(mod, args.tier, seed)
 
